@@ -155,6 +155,8 @@ ENUM_BASES = [
     ("try{child{failing step}}; step", [_T({"op": "child", "body": [{"op": "step", "beh": {"kind": "always_fail", "err": "UserError", "msg": "x"}, "sem": "least", "retry": {"kind": "none"}}]}), _S(3)], []),
     ("step; wait; step", [_S(1), {"op": "wait", "secs": 1}, _S(2)], []),
     ("try{wfcond that fails}; callback", [_T({"op": "wfcond", "init": 0, "decisions": [["continue", 1], ["stop"]], "trans": "count", "fail_at": 2}), {"op": "wfcb"}], []),
+    ("try{step} as the whole handler", [_T(_S(1))], []),
+    ("try{child{step; step}}", [_T({"op": "child", "body": [_S(1), _S(2)]})], []),
     ("map{step}", [{"op": "map", "items": [1, 2], "body": [_S(1)], "cfg": {"max_concurrency": None, "completion": {"min": None, "tol": 2, "pct": None}}}], []),
 ]
 
@@ -172,6 +174,14 @@ def _enum_stage(ctx):
             base = {"prog": {"body": body}, "backend": {"response": "delta", "page_size": page}, "plan": {"crashes": crashes, "faults": []}, "sched": [{"mode": "seq"}], "line": [], "max_raises": 2}
             total += WC.enumerate_faults(ctx, base, PROPS, nontrivial=nontrivial, classes=lambda r, c: ["fault-enumeration"] + classes(r, c),
                                          fault_classes=("server5xx", "client4xx", "throttle"))
+            if page is None:
+                # a throttled service: the same call (and any immediate re-attempt of it) fails three times in a row
+                r0 = WC.report_case(ctx, base, PROPS, nontrivial=nontrivial, classes=classes)
+                for inv in r0.invocations[:2]:
+                    for i in range(min(inv.get("api_calls", 0), 6)):
+                        f = {"inv": inv["inv"], "api": i, "class": "throttle", "when": "before", "repeat": 3}
+                        WC.report_case(ctx, {**base, "plan": {**base["plan"], "faults": [f]}}, PROPS, nontrivial=nontrivial, classes=lambda r, c: ["fault-enumeration", "throttled-three-times"] + classes(r, c))
+                        total += 1
     ctx.extra["fault_points_enumerated"] = ctx.extra.get("fault_points_enumerated", 0) + total
 
 
